@@ -261,6 +261,75 @@ fn case_dag(rng: &mut Rng, rep: &mut Report, thorough: bool) {
     rep.cell_digest(u64::from_le_bytes(w[..8].try_into().unwrap()));
 }
 
+/// One cache memoising MANY distinct shared pairs (tens of thousands, beyond any plausible bound on the
+/// memo table): the tree (X . (BIG . X)) with BIG a list of n elements (P_i . P_i), every P_i a distinct
+/// pair reached twice, and X a shared pair reached before and after BIG. Every routine and every
+/// entry the cache exposes afterwards must still be right.
+fn case_many_memoised(rng: &mut Rng, rep: &mut Report) {
+    let n = if miri() { 40 } else { *rng.pick(&[300usize, 66_000, 70_000]) };
+    let mut a = Allocator::new();
+    let xa = a.new_atom(&gen_atom(rng)).unwrap();
+    let xb = a.new_atom(&gen_atom(rng)).unwrap();
+    let x = a.new_pair(xa, xb).unwrap();
+    let mut ps: Vec<NodePtr> = Vec::with_capacity(n);
+    let mut big = a.nil();
+    for i in 0..n {
+        let l = a.new_small_number((i as u32).wrapping_mul(7919) % 50_000_000).unwrap();
+        let r = a.new_atom(&(i as u32).to_be_bytes()).unwrap();
+        let p = a.new_pair(l, r).unwrap();
+        ps.push(p);
+        let e = a.new_pair(p, p).unwrap();
+        big = a.new_pair(e, big).unwrap();
+    }
+    let tail = a.new_pair(big, x).unwrap();
+    let root = a.new_pair(x, tail).unwrap();
+    let mut memo = HashMap::new();
+    let want = model_hash_dag(&a, root, &mut memo);
+    let det = || json!({"kind": "many-memoised", "shared_pairs": n});
+    rep.cell(&format!("many-memoised:{n}"));
+    check(rep, "many-memoised/tree_hash", tree_hash(&a, root).as_ref(), &want, det);
+    let mut cache = TreeCache::default();
+    check(rep, "many-memoised/tree_hash_cached", tree_hash_cached(&a, root, &mut cache).as_ref(), &want, det);
+    let mut memoised = 0u64;
+    for p in ps.iter().chain([x, big, tail, root].iter()) {
+        if let Some(h) = cache.get(*p) {
+            memoised += 1;
+            let w = model_hash_dag(&a, *p, &mut memo);
+            if h.as_ref() != w {
+                rep.violation(
+                    "treehash-cache-entry-wrong",
+                    &format!("TreeCache::get returned {} for a node whose hash is {}", hx(h.as_ref()), hx(&w)),
+                    det(),
+                );
+                break;
+            }
+        }
+    }
+    // the used cache again: the early pairs, the root, and a fresh tree over early and late pairs
+    for p in [x, ps[0], ps[n / 2], ps[n - 1], root] {
+        let w = model_hash_dag(&a, p, &mut memo);
+        check(rep, "many-memoised/tree_hash_cached-reused", tree_hash_cached(&a, p, &mut cache).as_ref(), &w, det);
+    }
+    let mix = a.new_pair(ps[0], ps[n - 1]).unwrap();
+    let mix = a.new_pair(mix, x).unwrap();
+    let w = model_hash_dag(&a, mix, &mut memo);
+    check(rep, "many-memoised/tree_hash_cached-reused", tree_hash_cached(&a, mix, &mut cache).as_ref(), &w, det);
+    rep.add("memoised_nodes_observed", memoised);
+    rep.count("many_memoised_cases");
+    if let Ok(br) = node_to_bytes_backrefs(&a, root) {
+        match tree_hash_from_bytes(&br) {
+            Ok(h) => check(rep, "many-memoised/tree_hash_from_bytes-backrefs", h.as_ref(), &want, det),
+            Err(e) => rep.violation("treehash-from-bytes-error", &format!("{e:?}"), det()),
+        }
+    }
+    if let Ok(plain) = clvmr::serde::node_to_bytes(&a, root) {
+        match tree_hash_from_bytes(&plain) {
+            Ok(h) => check(rep, "many-memoised/tree_hash_from_bytes-plain", h.as_ref(), &want, det),
+            Err(e) => rep.violation("treehash-from-bytes-error", &format!("{e:?}"), det()),
+        }
+    }
+}
+
 /// several trees sharing sub-trees inside one allocator, hashed through one cache
 fn case_history(rng: &mut Rng, rep: &mut Report) {
     let mut a = Allocator::new();
@@ -482,6 +551,7 @@ fn main() {
             match rng.below(4000) {
                 0..=9 => case_small_atoms(rng, rep),
                 10..=14 => case_deep(rng, rep, thorough),
+                3990 => case_many_memoised(rng, rep),
                 15..=19 if !thorough => case_deep(rng, rep, thorough),
                 20..=619 => case_dag(rng, rep, thorough),
                 620..=1219 => case_history(rng, rep),
